@@ -156,6 +156,31 @@ func registerIntrinsics(in *Interp) {
 		return nil
 	}
 	I["vCrashEnabled"] = func(in *Interp, a []Value, _ ssa.CallInstruction) Value { return in.B.True() }
+	// ---- abstract slices (C06-sym)
+	I["vAbsInstrs"] = func(in *Interp, a []Value, site ssa.CallInstruction) Value {
+		n := a[0].(*sym.Term)
+		st := under(site.Value().Type()).(*types.Slice)
+		return AbsSlice{&AbsArr{Len: n, Def: a[1], ElemT: st.Elem()}}
+	}
+	I["vAbsLive"] = func(in *Interp, a []Value, _ ssa.CallInstruction) Value {
+		in.absOf(a[0]).Live = true
+		return nil
+	}
+	I["vAbsCount"] = func(in *Interp, a []Value, _ ssa.CallInstruction) Value {
+		return in.B.Const(in.WordBits, uint64(len(in.absOf(a[0]).Ents)))
+	}
+	I["vAbsIdx"] = func(in *Interp, a []Value, _ ssa.CallInstruction) Value {
+		return in.absOf(a[0]).Ents[in.cint(a[1], "entry")].Idx
+	}
+	I["vAbsGuard"] = func(in *Interp, a []Value, _ ssa.CallInstruction) Value {
+		return in.absOf(a[0]).Ents[in.cint(a[1], "entry")].Guard
+	}
+	I["vAbsAdded"] = func(in *Interp, a []Value, _ ssa.CallInstruction) Value {
+		return in.B.Bool(in.absOf(a[0]).Ents[in.cint(a[1], "entry")].Added)
+	}
+	I["vAbsVal"] = func(in *Interp, a []Value, _ ssa.CallInstruction) Value {
+		return in.absOf(a[0]).Ents[in.cint(a[1], "entry")].V
+	}
 	I["vRegister"] = func(in *Interp, a []Value, _ ssa.CallInstruction) Value { return nil }
 	I["vParamInt"] = func(in *Interp, a []Value, _ ssa.CallInstruction) Value {
 		v, ok := in.Params[str(a[0])]
